@@ -272,3 +272,36 @@ func (c *Conc) SymParam(ref string, i int, name string) Val {
 	c.X.assumeParam(c.St, v, fn.Params[i].Type())
 	return v
 }
+
+// SymBytes makes a []byte of concrete length n with symbolic elements.
+func (c *Conc) SymBytes(name string, n int) (Val, []*T) {
+	ref := c.X.newBacking(c.St, types.Typ[types.Uint8])
+	a := c.X.heapArr(c.St, "e:uint8", term.Int)
+	inner := term.Select(a, ref)
+	var bs []*T
+	for i := 0; i < n; i++ {
+		b := term.EMod(term.Var(fmt.Sprintf("%s[%d]", name, i), term.Int), term.I(256))
+		inner = term.Store(inner, term.I(int64(i)), b)
+		bs = append(bs, b)
+	}
+	c.St.Heap["e:uint8"] = term.Store(a, ref, inner)
+	ln := term.I(int64(n))
+	return VSlice{ref, term.I(0), ln, ln, types.NewSlice(types.Typ[types.Uint8])}, bs
+}
+
+// PtrConst builds a pointer value to the object with the given concrete reference.
+func (c *Conc) PtrConst(ref int64, typ string) Val {
+	return VT{term.I(ref), c.E.parseType(typ)}
+}
+
+// ExtraTrivial returns the number of syntactically discharged obligations that were counted but
+// not stored individually.
+func (c *Conc) ExtraTrivial() map[string]int {
+	out := map[string]int{}
+	for k, n := range c.X.TrivialByKind {
+		if n > 50 {
+			out[k] = n - 50
+		}
+	}
+	return out
+}
